@@ -934,8 +934,7 @@ operations `Poll` / `Deliver` are no longer executed; the applications may still
   initiator counts the handshake response as a received, unacknowledged segment).  Before it the
   responder's handshake response was acknowledged only together with a later segment of the
   responder, `Tight` had a slack of one segment, and a responder that sent nothing for 30 s after
-  the handshake closed a healthy session (`late_first_message_example`, formerly
-  `idle_close_example`; `corpus/C18/idle-timeout.txt` case 3 on the real code). -/
+  the handshake closed a healthy session (`late_first_message_example`; `corpus/C18/idle-timeout.txt` case 3 on the real code). -/
 
 theorem runT_link (tops : List TOp) : ∀ t : TMon, (runT t tops).l = runLink t.l (executed t tops) := by
   induction tops with
@@ -1135,7 +1134,8 @@ timeout checks whose projection is fair (`C18_live`) and whose executed operatio
 message accepted by `send` at `x` is eventually fetched at the other end, and the session is still
 open then.  (Joint satisfiability of "fair" and "timely" for an infinite schedule depends on the
 state - enough delivery / fetch / poll rounds before every tick - and is shown on finite prefixes
-only: `pingPongOps`, `lateOps1`.) -/
+only: 40 periods of the fair schedule `timelyRR` (`timelyRR_fair`) from the handshake state; the
+schedule `roundRobin` of the `C18_live` examples is fair but not timely.) -/
 theorem C18_live_timely {W M : Nat} (hw3 : 3 ≤ W) (t : TMon) (hc : t.closed = false) (ht : Timed W M t.l)
     (f : Nat → TOp) (hwf : ∀ i, WfOp (f i).proj)
     (hdel : ∀ y i, ∃ j ≥ i, (f j).proj = .deliver y)
@@ -1261,6 +1261,82 @@ theorem late_first_message_example :
     (runT (freshT false false none none) lateTops).l.now = 31 ∧
     TimelyFrom (runLink (freshLink false false none none) handshakeOps) lateOps1 :=
   ⟨by decide, by decide, by decide, by decide, timely_of_B _ _ (by decide)⟩
+
+/-- one round in which everything that can move does: both pumps, both queues, both applications -/
+def settleOps : List Op := [.poll .a, .deliver .b, .poll .b, .deliver .a, .fetch .a 1232, .fetch .b 1232]
+
+/-- one period (28 operations) of the fair AND timely schedule: the 15 s timer fires and `a`'s pump
+runs, two settle rounds, the timer fires and `b`'s pump runs, two settle rounds -/
+def timelyPeriod : List Op :=
+  [.tick 15, .poll .a] ++ settleOps ++ settleOps ++ [.tick 15, .poll .b] ++ settleOps ++ settleOps
+
+/-- its infinite repetition -/
+def timelyRR (i : Nat) : Op := timelyPeriod.getD (i % 28) (.tick 0)
+
+def notSend : Op → Bool
+  | .send _ _ => false
+  | _ => true
+
+theorem wf_of_notSend {o : Op} (h : notSend o = true) : WfOp o := by
+  cases o <;> first | trivial | cases h
+
+theorem timelyRR_fair : Fair timelyRR := by
+  have key : ∀ (i c : Nat), c < 28 → timelyRR (28 * i + c) = timelyRR c := by
+    intro i c hc
+    simp only [timelyRR, Nat.mul_add_mod, Nat.mod_eq_of_lt hc]
+  refine ⟨?_, ?_, ?_, ?_⟩
+  · intro i
+    have h : ∀ c, c < 28 → notSend (timelyPeriod.getD c (.tick 0)) = true := by decide
+    exact wf_of_notSend (h _ (Nat.mod_lt _ (by omega)))
+  · intro y i
+    cases y
+    · exact ⟨28 * i + 5, by omega, (key i 5 (by omega)).trans rfl⟩
+    · exact ⟨28 * i + 3, by omega, (key i 3 (by omega)).trans rfl⟩
+  · intro y i
+    cases y
+    · exact ⟨28 * i + 0, by omega, (key i 0 (by omega)).trans rfl, (key i 1 (by omega)).trans rfl⟩
+    · exact ⟨28 * i + 14, by omega, (key i 14 (by omega)).trans rfl, (key i 15 (by omega)).trans rfl⟩
+  · intro y i
+    cases y
+    · exact ⟨28 * i + 6, by omega, (key i 6 (by omega)).trans rfl⟩
+    · exact ⟨28 * i + 7, by omega, (key i 7 (by omega)).trans rfl⟩
+
+/-- the first `28 n` operations of `timelyRR` are `n` periods -/
+example : (List.range 56).map timelyRR = timelyPeriod ++ timelyPeriod := by decide
+
+set_option maxRecDepth 100000 in
+/-- **`Fair` and `TimelyFrom` are jointly satisfiable**, as far as shown: the first 40 periods
+(1200 s of model time, 80 stand-alone acknowledgements) of the fair schedule `timelyRR`, run from the
+state right after the handshake, are timely - the link is quiescent at every `tick`, the
+acknowledgement ping-pong settles within the two settle rounds. Timeliness of the INFINITE
+repetition (a periodicity argument on the state up to sequence numbers and clock) is not proved:
+finite prefixes only. -/
+example : TimelyFrom (runLink (freshLink false false none none) handshakeOps) ((List.range (28 * 40)).map timelyRR) :=
+  timely_of_B _ _ (by decide)
+
+/-- `roundRobin` (the fair schedule of the `C18_live` examples) is fair but NOT timely: its second
+`tick 15` comes while the acknowledgement emitted by `poll a` is still in flight -/
+example : timelyB (runLink (freshLink false false none none) handshakeOps) ((List.range 16).map roundRobin) = false := by
+  decide
+
+/-- **Windows 1 and 2 never come to rest** (only with a peer that asks for such a window; two
+rs-matter ends negotiate ≥ 6): `is_ack_due` is true whenever `recv.level ≤ 1`, which with a window
+of 1 or 2 holds after EVERY accepted segment, stand-alone acknowledgements included - the two ends
+exchange stand-alone acknowledgements endlessly at zero elapsed time (6 poll / deliver rounds without
+a tick: sequence numbers 5 / 6, clock 0, never `Quiescent`), whereas window 3 stays quiet. So
+`TimelyFrom` admits no `tick` at all from these states: `timeout_never_fires` / `never_closed`
+(stated for window ≥ 2) have time content only for window ≥ 3. -/
+def pingRound : List Op := [.poll .a, .deliver .b, .poll .b, .deliver .a]
+
+example :
+    (runLink (smallWindowLink 1) (pingRound ++ pingRound ++ pingRound ++ pingRound ++ pingRound ++ pingRound)).a.e.s.send.lastSent = 5 ∧
+    (runLink (smallWindowLink 2) (pingRound ++ pingRound ++ pingRound ++ pingRound ++ pingRound ++ pingRound)).b.e.s.send.lastSent = 6 ∧
+    (runLink (smallWindowLink 2) (pingRound ++ pingRound ++ pingRound ++ pingRound ++ pingRound ++ pingRound)).now = 0 ∧
+    quiescentB (runLink (smallWindowLink 1) (pingRound ++ pingRound ++ pingRound ++ pingRound ++ pingRound ++ pingRound)) = false ∧
+    quiescentB (runLink (smallWindowLink 2) (pingRound ++ pingRound ++ pingRound ++ pingRound ++ pingRound ++ pingRound)) = false ∧
+    (runLink (smallWindowLink 3) (pingRound ++ pingRound ++ pingRound ++ pingRound ++ pingRound ++ pingRound)).a.e.s.send.lastSent = 255 ∧
+    quiescentB (runLink (smallWindowLink 3) (pingRound ++ pingRound ++ pingRound ++ pingRound ++ pingRound ++ pingRound)) = true := by
+  decide
 
 /-! ## The ring buffer: the real (checked) index arithmetic never panics and refines the byte queue of the session model -/
 
